@@ -14,7 +14,7 @@ from fractions import Fraction
 from .common import Corr, flist, frac2s
 
 ID = "C14"
-LEAN_MODULES = ["TempestVerif.Props.C14"]
+LEAN_MODULES = ["TempestVerif.Props.C14", "TempestVerif.Props.C14Valid", "TempestVerif.Props.C14Resume", "TempestVerif.Props.C14Step"]
 RULE = ("(1) labels->modes: generated label vectors (n<=14, K_fit<=6; full coverage permuted, gaps, singletons, sorted/reversed) fed to the "
         "REAL ModeStatistics.from_particles with fit_mvstud replaced by a tagging stub (point id in coordinate 0; scripted dof: finite/inf/nan; "
         "generated dof_fallback) and np.random.choice on a tape; K, the member list of every mode, the exact sequence fed to every fit "
@@ -38,8 +38,26 @@ RULE = ("(1) labels->modes: generated label vectors (n<=14, K_fit<=6; full cover
         "(5) cholesky contract: generated d=1..4 matrices (SPD, badly scaled SPD, indefinite, negative definite, rank deficient, zero, tiny, "
         "garbage above the diagonal, NaN) through the real np.linalg.cholesky and the real ModeStatistics constructor (batched): whatever is "
         "returned must satisfy Lemmas.CholeskyPD.IsCholeskyFactor within 1e-9, and no object may exist for a clearly non-PD finite matrix. "
+        "(6) cadence-extended-real (second pass): REAL Sampler objects driven by scripts of run() / a second run() / save_state / load_state "
+        "into the same or a new Sampler / run(resume_state_path) on the same or a new Sampler / iterations that raise (from_particles = a "
+        "refused degenerate cluster, parallel_mcmc = the user's likelihood, trim_weights) followed by another run(); only the termination "
+        "test is patched (k iterations per run); the real HierarchicalGaussianMixture is spied: N / F<generation> / P<generation> events, "
+        "final iter and generation vs `c14x.trace` (Model.CadenceX) on the observed beta bits. "
+        "(7) iteration-dataflow (second pass): real SamplerCore.execute_iteration (real Reweighter, Trainer, Resampler, Mutator, StateManager, "
+        "trim_weights, from_particles, mode_index) with tempest.cluster.HierarchicalGaussianMixture replaced by a tagging double that the core "
+        "constructs and shares itself, tagging fit_mvstud, parallel_mcmc intercepted (moves every walker to a fresh point); per annealing "
+        "iteration: what fit / predict / from_particles received (ids and exact weights), the stored labels, the mode members, raw labels, "
+        "indices and relabels vs `c14i.iter` (Model.TrainStep.annealIter on the same tagging components; the model decides fit-or-reuse "
+        "itself from iter, cluster_every and the flag; trim_idx / weights_trimmed / resampled ids are read off the real run). "
+        "(8) trainer-modes-real (second pass): generated clusters (generic, fewer points than d+1, one particle, one constant coordinate, "
+        "points on a tilted line, duplicates) x flat / skewed / one-heavy weights, d=1..4, through the REAL from_particles with the real "
+        "fit_mvstud and seeded np.random.choice: on every object that exists the statement's own oracle (K = distinct labels, mean finite and "
+        "inside the bounding box of the particles carrying the label, scale symmetric with no eigenvalue below -1e-9 relative, dof positive "
+        "finite); an exception other than LinAlgError is a disagreement; the constructor's verdict vs `c14g.gate` (Model.ModeGate.pdGate at "
+        "Float) on every fitted scale matrix that is clearly positive definite (relative 1e-10) or has an exactly zero diagonal entry. "
         "Non-trivial = (1,2) >=2 distinct labels and (a gap or unsorted order); (3) an annealing iteration with cluster_every>1 or a resume; "
-        "(4) every run; (5) any batch that is not all plain SPD.")
+        "(4) every run; (5) any batch that is not all plain SPD; (6) every script; (7) every annealing iteration; (8) a case with a "
+        "non-generic cluster.")
 MODELLED = ["fit_mvstud is replaced by a tagging stub in suites 1-3 (its numerical output is C19's subject); the real one runs in suite 4",
             "the weighted draw inside from_particles is modelled as an arbitrary tape of local indices (np.random.choice patched)",
             "the beta schedule is abstracted to one bit per iteration (beta == 0?), arbitrary in the model",
@@ -54,14 +72,25 @@ MODELLED = ["fit_mvstud is replaced by a tagging stub in suites 1-3 (its numeric
             "nan and +inf degrees of freedom are both the model's `none` (not finite)",
             "a clusterer `fit` that raises half-way (flag not set, object partly populated) is not modelled",
             "exceptions out of student.py / LinAlgError from the ModeStatistics constructor on a degenerate training cluster stop the run "
-            "before mutation: counted, not C14's subject (C18/C19)"]
+            "before mutation: counted, not C14's subject (C18/C19)",
+            "second pass: the constructor's two LAPACK calls are the gate `Model.ModeGate.pdGate` (all Gauss-Jordan pivots > 0), proved equal to "
+            "positive definiteness on positive semidefinite input (H_lapack as in C19; suites 5 and 8)",
+            "second pass: in exact arithmetic a mode is refused iff its resample is constant in a coordinate (C14_mode_passes_gate_iff); in "
+            "floats affinely degenerate resamples and Student-t EM collapse on <= 2d distinct points also come back numerically singular "
+            "(counted by suite 8, finding F24), and a constant coordinate whose variance is not exactly 0 passes with a rounding-level scale",
+            "second pass: an iteration that raises is one of three shapes (before the fit returned / inside Trainer.run after the clusterer "
+            "calls / after Resampler.run); a `clusterer.fit` that raises half-way leaves the flag unset (the next Trainer.run refits)",
+            "second pass: the resampled indices and the trimming mask of suite 7 are inputs of the model (C06 / C20 model them)"]
 ASSUMPTIONS = ["cluster_every >= 1 and n_max_clusters in {None, 1, 2, ...} (SamplerConfig does not validate them: C18)",
                "labels returned by predict are non-negative integers (C15_predict_range)",
                "the trimmed training pool is non-empty whenever Trainer.run reaches from_particles (beta > 0 implies a committed history)",
                "C14_cap_hgmm rests on Props.C15.C15_cap and its own hypothesis (the split oracle labels children validly)",
                "C14_dof_positive: fit_mvstud answers a positive value whenever it answers a finite one (Props.C19.C19_nu_range)",
                "C14_scale_matrices_posDef: a factor returned by cholesky on finite input honours the LAPACK contract (suite 5); symmetry of "
-               "the stored matrix is Props.C19.C19_sigma_symm"]
+               "the stored matrix is Props.C19.C19_sigma_symm",
+               "C14_iteration_model: the importance weights are non-negative with positive sum, one per history particle (C04/C05), "
+               "TRIM_ESS <= 1 and TRIM_BINS >= 1 (Props.C20.C20_gen_trim_constants), DOF_FALLBACK > 0 (C14_dof_fallback_constant_pos); the "
+               "previous fit held by the clusterer object was produced by this clusterer's fit (Model.CadenceX generations)"]
 
 IDS = 64          # id i of a training particle is encoded as u[i,0] = (i + 0.5)/IDS  (exact in binary)
 
@@ -812,11 +841,17 @@ def correspond_cholesky(tier):
 
 
 def correspond(tier):
+    from . import c14b
     drv = common.Driver()
     out = correspond_labels(tier, drv)
     out.append(correspond_cadence(tier, drv))
-    out.append(correspond_runs(tier, drv))
+    runs = correspond_runs(tier, drv)
+    c14b.wiring_cases(drv, runs)
+    out.append(runs)
     out.append(correspond_cholesky(tier))
+    out.append(c14b.correspond_cadence_x(tier, drv))
+    out.append(c14b.correspond_dataflow(tier, drv))
+    out.append(c14b.correspond_modes_real(tier, drv))
     return out
 
 
@@ -908,6 +943,21 @@ def search(tier, hints):
                 r = real_run(h["cfg"])
                 if r["problems"]:
                     found.append({"what": r["problems"][0], "kind": "run", "cfg": h["cfg"]})
+            elif h.get("kind") == "script" and h.get("script"):
+                from . import c14b
+                msg = c14b.oracle_script(h["ce"], [tuple(op) for op in h["script"]], h["seed"])
+                if msg:
+                    found.append({"what": msg, "kind": "script", "ce": h["ce"], "script": h["script"], "seed": h["seed"]})
+            elif h.get("kind") == "dataflow" and h.get("cfg"):
+                from . import c14b
+                msg = c14b.oracle_dataflow(h["cfg"])
+                if msg:
+                    found.append({"what": msg, "kind": "dataflow", "cfg": h["cfg"]})
+            elif h.get("kind") == "modesreal" and h.get("index") is not None:
+                from . import c14b
+                msg = c14b.oracle_modes_real(h["index"])
+                if msg:
+                    found.append({"what": msg, "kind": "modesreal", "index": h["index"]})
         except Exception as e:  # noqa
             found.append({"what": f"oracle raised {type(e).__name__}: {e}", "kind": "hint", "hint": {k: v for k, v in h.items() if k != "suite"}})
         if len(found) >= 3:
@@ -939,6 +989,33 @@ def search(tier, hints):
         msg = oracle_gate(a)
         if msg:
             found.append({"what": msg, "kind": "cholesky", "matrix": a.tolist()})
+    # second pass: scripted histories on real Samplers (second run(), load_state, manual resume, iterations that raise)
+    from . import c14b
+    scripts = [(ce, sc, 500 + i) for i, (ce, sc) in enumerate(c14b.FIXED_SCRIPTS)]
+    for i in range(4 if quick else 60):
+        scripts.append((rng.choice([2, 3, 5, 7]), c14b._gen_script(rng), 900 + i))
+    for ce, sc, sd in scripts:
+        if len(found) >= 3:
+            break
+        msg = c14b.oracle_script(ce, sc, sd)
+        if msg:
+            found.append({"what": msg, "kind": "script", "ce": ce, "script": [list(op) for op in sc], "seed": sd})
+    # second pass: one whole iteration with the tagging clusterer; the real fit + constructor on tiny / degenerate clusters
+    for i in range(6 if quick else 80):
+        if len(found) >= 3:
+            break
+        key = {"d": rng.choice([1, 2, 3]), "ce": rng.choice([1, 2, 3, 5]), "kernel": rng.choice(["tpcn", "rwm"]), "n_iter": rng.randint(5, 9),
+               "np": rng.choice([4, 6, 8]), "resample": rng.choice(["mult", "syst"]), "seed": 8000 + i, "cap": None}
+        try:
+            msg = c14b.oracle_dataflow(key)
+        except Exception as e:  # noqa
+            msg = f"execute_iteration raised {type(e).__name__}: {e}"
+        if msg:
+            found.append({"what": msg, "kind": "dataflow", "cfg": key})
+    if len(found) < 3:
+        i, msg = c14b.oracle_modes_real_first(80 if quick else 1500)
+        if msg:
+            found.append({"what": msg, "kind": "modesreal", "index": i})
     # real runs over the cadence x cap x normalize grid, after a real save/load/resume, and with stale clusterer labels
     if len(found) < 3:
         for cfg in _run_grid(tier, rng):
@@ -965,6 +1042,15 @@ def replay(obj):
     elif kind == "run":
         r = real_run(f["cfg"])
         msg = (r["problems"] or [None])[0]
+    elif kind == "script":
+        from . import c14b
+        msg = c14b.oracle_script(f["ce"], [tuple(op) for op in f["script"]], f["seed"])
+    elif kind == "dataflow":
+        from . import c14b
+        msg = c14b.oracle_dataflow(f["cfg"])
+    elif kind == "modesreal":
+        from . import c14b
+        msg = c14b.oracle_modes_real(f["index"])
     else:
         found = search("quick", [])
         msg = found[0]["what"] if found else None
